@@ -9,6 +9,7 @@ import (
 	"math/big"
 
 	"github.com/gcash/bchd/bchec"
+	"github.com/gcash/bchutil/base58"
 )
 
 // ---- idealised secp256k1 (contract of bchec; see DESIGN.md §2.3) -----------------------------
@@ -167,7 +168,10 @@ func zzKey(private bool) *ExtendedKey {
 		k.key = vBytes("pub", 33)
 		if !vSymbolic() {
 			// native replay: any valid point will do; take the one of the scalar in the model bytes
-			x, y := bchec.S256().ScalarBaseMult(k.key[1:])
+			sc := append([]byte(nil), k.key[1:]...)
+			sc[31] |= 1 // never the zero scalar
+			sc[0] &= 0x7f
+			x, y := bchec.S256().ScalarBaseMult(sc)
 			k.key = (&bchec.PublicKey{Curve: bchec.S256(), X: x, Y: y}).SerializeCompressed()
 		}
 		vAssume(k.key[0] == 2 || k.key[0] == 3)
@@ -181,4 +185,30 @@ func zzDsha(b []byte) []byte {
 	h1 := sha256.Sum256(b)
 	h2 := sha256.Sum256(h1[:])
 	return h2[:]
+}
+
+// zzSer: the bytes String() hands to Base58 (natively: decode the real string again)
+func zzSer(k *ExtendedKey) []byte {
+	str := k.String()
+	if !vSymbolic() {
+		if str == "zeroed extended key" {
+			return nil
+		}
+		return base58.Decode(str)
+	}
+	return append([]byte(nil), zzEncoded...)
+}
+
+// zzParse: NewKeyFromString on a string that Base58-decodes to b. Natively the checksum bytes
+// are recomputed when fix is set (the solver's checksum is that of the uninterpreted hash).
+func zzParse(b []byte, fix bool) (*ExtendedKey, error) {
+	if !vSymbolic() {
+		c := append([]byte(nil), b...)
+		if fix && len(c) >= 4 {
+			copy(c[len(c)-4:], zzDsha(c[:len(c)-4])[:4])
+		}
+		return NewKeyFromString(base58.Encode(c))
+	}
+	zzDecoded = b
+	return NewKeyFromString("<base58>")
 }
